@@ -91,7 +91,7 @@ func (s *Spec) Graph(fn *ssa.Function) *Graph {
 				continue
 			}
 			mark := func(i int) {
-				e := Edge{b, i}
+				e := Edge{From: b, Succ: i}
 				if !feasible[e] {
 					feasible[e] = true
 					changed = true
@@ -125,8 +125,8 @@ func (s *Spec) Graph(fn *ssa.Function) *Graph {
 	dead := map[Edge]bool{}
 	for _, b := range fn.Blocks {
 		for i := range b.Succs {
-			if !feasible[Edge{b, i}] {
-				dead[Edge{b, i}] = true
+			if !feasible[Edge{From: b, Succ: i}] {
+				dead[Edge{From: b, Succ: i}] = true
 			}
 		}
 	}
@@ -316,8 +316,8 @@ func (e *evaluator) eval1(v ssa.Value, depth int) aval {
 		ce.feasible = map[Edge]bool{}
 		for _, b := range callee.Blocks {
 			for i := range b.Succs {
-				if !g.Dead[Edge{b, i}] {
-					ce.feasible[Edge{b, i}] = true
+				if !g.Dead[Edge{From: b, Succ: i}] {
+					ce.feasible[Edge{From: b, Succ: i}] = true
 				}
 			}
 		}
@@ -363,7 +363,7 @@ func (e *evaluator) notIn(v ssa.Value, c aval) (bool, bool) {
 
 func (e *evaluator) edgeFeasible(from, to *ssa.BasicBlock) bool {
 	for i, t := range from.Succs {
-		if t == to && e.feasible[Edge{from, i}] {
+		if t == to && e.feasible[Edge{From: from, Succ: i}] {
 			return true
 		}
 	}
